@@ -183,3 +183,58 @@ func VerifHarness_C17_FullSlots() {
 		verifAssert("C17:total-stake-is-the-sum-of-kept-stakes", st.Candidates.GetTotalStake(P).Cmp(sum) == 0)
 	}
 }
+
+// C18 (absence window): validator P's 24-block attendance window holds a
+// concrete pattern of 10 missed blocks plus 4 positions whose bits are
+// arbitrary (so the count before the step ranges over 10..14, the slot of the
+// current height included or not).  P misses block H.  More than 12 misses in
+// the window: P is switched off, marked to be dropped, its window is reset and
+// its candidate is jailed until exactly H + jail period; otherwise nothing but
+// the window bit changes.
+func VerifHarness_C18_AbsenceWindow() {
+	st, err := NewStateV3(0, db.NewMemDB(), &eventsdb.MockEvents{}, 1, 2, 0)
+	if err != nil {
+		panic(err)
+	}
+	P := verifK(1)
+	owner := verifA(1)
+	st.Candidates.Create(owner, owner, owner, P, 10, 1, 0)
+	st.Candidates.SetOnline(P)
+	v := verifE18(5000)
+	st.Candidates.Delegate(owner, P, 0, v, v)
+	st.Candidates.RecalculateStakesV2(1)
+	st.Validators.SetNewValidators(st.Candidates.GetNewCandidates(4))
+	val := st.Validators.GetValidators()[0]
+	const H = 1000 // slot 1000 % 24 = 16
+	// concrete misses at slots 0..9; arbitrary bits at slots 12, 16 (the current one), 20, 23
+	free := []int{12, 16, 20, 23}
+	before := 10
+	var bits [4]bool
+	for k, slot := range free {
+		bits[k] = verifBool("missed." + string(rune('a'+k)))
+		if bits[k] {
+			before++
+		}
+		_ = slot
+	}
+	for i := 0; i < 10; i++ {
+		val.AbsentTimes.SetIndex(i, true)
+	}
+	for k, slot := range free {
+		val.AbsentTimes.SetIndex(slot, bits[k])
+	}
+	after := before
+	if !bits[1] {
+		after++
+	}
+	st.Validators.SetValidatorAbsent(H, val.GetAddress(), nil)
+	cand := st.Candidates.GetCandidate(P)
+	if after > 12 {
+		verifAssert("C18:more-than-12-of-24-missed-switches-off", cand.Status == 1 && val.IsToDrop())
+		verifAssert("C18:jailed-for-exactly-the-jail-period", cand.JailedUntil == H+types.GetJailPeriod())
+		verifAssert("C18:window-reset-after-punishment", val.CountAbsentTimes() == 0)
+	} else {
+		verifAssert("C18:up-to-12-misses-tolerated", cand.Status == 2 && !val.IsToDrop() && cand.JailedUntil == 0)
+		verifAssert("C18:window-records-the-miss", val.CountAbsentTimes() == after)
+	}
+}
